@@ -402,6 +402,7 @@ func coalescingScenarios(prop string, clients int) []psched {
 		ps = append(ps, psched{Name: n("cold-transient-503"), Backend: be, Clients: clients, Start: "cold", Outcome: "transient-503", Prop: prop})
 		ps = append(ps, psched{Name: n("stale-304-transient-503"), Backend: be, Clients: clients, Start: "stale-304", Outcome: "transient-503", Prop: prop})
 		ps = append(ps, psched{Name: n("stale-200-transient-503"), Backend: be, Clients: clients, Start: "stale-200", Outcome: "transient-503", Prop: prop})
+		ps = append(ps, psched{Name: n("cold-empty-body"), Backend: be, Clients: clients, Start: "cold", Outcome: "empty-body", Prop: prop})
 		ps = append(ps, psched{Name: n("cold-slow-readers"), Backend: be, Clients: clients, Start: "cold", Outcome: "cacheable", Slow: true, Prop: prop})
 		ps = append(ps, psched{Name: n("cold-client1-disconnects"), Backend: be, Clients: clients, Start: "cold", Outcome: "cacheable", Cancel: 1, Prop: prop})
 		ps = append(ps, psched{Name: n("cold-client2-disconnects"), Backend: be, Clients: clients, Start: "cold", Outcome: "cacheable", Cancel: 2, Prop: prop})
